@@ -10,9 +10,13 @@
      [k |-> "loaded", end |-> "clean" | "fre" | "other", exc |-> class name, n |-> flows yielded,
                       cur |-> BOOLEAN (every yielded flow reports the current format version),
                       explains |-> BOOLEAN (the error text names the offending version)]   FlowReader.stream()
+     [k |-> "content", a |-> <<content ids of the records, by an independent reading of the file>>,
+                       b |-> <<content ids of the loaded flows>>]      (record i <-> flow i; only after a clean load)
      [k |-> "resaved", a |-> <<state ids after load>>, b |-> <<state ids after save + load>>, end |-> as above]
    Clauses (only what the statement says):
      old_version_not_loaded   a file of a supported older version loads cleanly into >= 1 current flows
+     old_content_lost         ... and flow i carries the content an independent reading of record i gives (request /
+                              response / messages; for WebSocket records: every message, close code, closing side)
      current_state_changed    migration is the identity on current-format states
      resave_not_fixpoint      saving the migrated flows and loading them again reproduces the same states
      future_version_*         newer, unknown versions are rejected with FlowReadException naming the version   *)
@@ -46,6 +50,13 @@ MonStep(m, ev) ==
   ELSE IF ev.k = "loaded" THEN
      [m EXCEPT !.bad = LoadedClause(m, ev),
                !.wit = @ \cup (IF ev.end = "clean" THEN {"loaded_clean"} ELSE {"rejected"})]
+  ELSE IF ev.k = "content" THEN
+     [m EXCEPT !.bad = IF m.src \in {"dump", "synthetic", "current"} /\ Len(ev.a) = Len(ev.b) /\ ev.a # ev.b
+                       THEN <<"C38.old_content_lost",
+                              m.ts[CHOOSE i \in 1..Len(ev.a) : ev.a[i] # ev.b[i] /\ \A j \in 1..(i - 1) : ev.a[j] = ev.b[j]]>>
+                       ELSE <<>>,
+               !.wit = @ \cup {"content_compared"}
+                         \cup (IF "websocket" \in ToSet(m.ts) /\ Len(ev.a) = Len(ev.b) THEN {"old_websocket_content"} ELSE {})]
   ELSE IF ev.k = "resaved" THEN
      [m EXCEPT !.bad = IF m.src \in {"dump", "synthetic", "current"} /\ (ev.end # "clean" \/ ev.a # ev.b)
                        THEN <<"C38.resave_not_fixpoint", m.ts[1]>> ELSE <<>>,
